@@ -373,9 +373,11 @@ def check(prop, tier, seed, replay):
                     notes.append("no MISMATCH list printed by %s" % os.path.basename(path))
                 corr_mismatch += lists.get("MISMATCH", []) if isinstance(lists.get("MISMATCH", []), list) else []
                 spec_fail += lists.get("SPECFAIL", []) if isinstance(lists.get("SPECFAIL", []), list) else []
+    case_hash = res.get("extra", {}).get("case_hash", {})
     for cid in spec_fail:
         c = case_index.get(str(cid))
-        same = [f for f in failures if c is not None and f.get("replay") == c]
+        h = case_hash.get(str(cid))
+        same = [f for f in failures if (c is not None and f.get("replay") == c) or (h and f.get("replay_hash") == h)]
         failures.append({"case": str(cid), "class": (same[0]["class"] if same else "%s/spec-in-kernel" % prop),
                          "what": "specification function (evaluated in Coq) rejects the implementation's output",
                          "replay": c})
@@ -399,7 +401,7 @@ def check(prop, tier, seed, replay):
     # the correspondence obligation: model and implementation agree on every case, except cases
     # that ALSO fail the oracle with a class listed as an open known finding (there the model
     # follows the documented behaviour and the recorded defect is the difference)
-    unexplained_all = [m for m in corr_mismatch if not explained_by_known(m, case_index, failures, open_known)]
+    unexplained_all = [m for m in corr_mismatch if not explained_by_known(m, case_index, failures, open_known, case_hash)]
     obligations += 1
     if corr_ok and not unexplained_all:
         discharged += 1
@@ -412,11 +414,11 @@ def check(prop, tier, seed, replay):
         seen_classes.add(f["class"])
         rp = write_replay(prop, "fail-%s-%s" % (re.sub(r"[^A-Za-z0-9_.-]", "_", str(f["case"]))[:50],
                                                 re.sub(r"[^A-Za-z0-9_.-]", "_", str(f["class"]).split("/", 1)[-1])[:40]),
-                          {"property": prop, "case": f["case"], "class": f["class"], "what": f["what"],
+                          {"property": prop, "case": f["case"], "class": f["class"], "what": f.get("what", ""),
                            "replay": f.get("replay"),
                            "replay_cmd": "./check %s --replay <this file>" % prop})
         violations.append((rp, ""))
-        print("  failing input (%s): %s" % (f["class"], str(f["what"])[:400]))
+        print("  failing input (%s): %s" % (f["class"], str(f.get("what", ""))[:400]))
     if not new_failures:
         unexplained = unexplained_all
         if not proofs_ok:
@@ -450,11 +452,12 @@ def check(prop, tier, seed, replay):
     return exit_code
 
 
-def explained_by_known(cid, case_index, failures, open_known):
+def explained_by_known(cid, case_index, failures, open_known, case_hash=None):
     """A correspondence mismatch is explained when the same case also failed the oracle
     with a class listed as an open finding (the model is of the documented behaviour there)."""
+    h = (case_hash or {}).get(str(cid))
     for f in failures:
-        if str(f.get("case")) == str(cid) and any(k.get("class") == f.get("class") for k in open_known):
+        if (str(f.get("case")) == str(cid) or (h and f.get("replay_hash") == h)) and any(k.get("class") == f.get("class") for k in open_known):
             return True
     return False
 
